@@ -25,7 +25,18 @@ VERIF = os.path.dirname(os.path.dirname(os.path.abspath(__file__)))
 REPO = os.environ.get("HAPTOOLS_REPO", "/repo")
 COQDIR = os.path.join(VERIF, "coq")
 THEORIES = os.path.join(COQDIR, "theories")
-NPROC = int(os.environ.get("VERIF_NPROC", "14"))
+def _default_nproc():
+    """14 workers on an idle machine; fewer when the machine is already busy (other checks running),
+    so that concurrent runs do not push each other into per-case timeouts."""
+    try:
+        busy = os.getloadavg()[0]
+    except OSError:
+        busy = 0.0
+    cores = os.cpu_count() or 16
+    return int(max(3, min(14, cores - busy)))
+
+
+NPROC = int(os.environ.get("VERIF_NPROC") or _default_nproc())
 _MP = multiprocessing.get_context("fork")
 
 # exception class name -> small enum shared with the Coq models (Err k)
